@@ -1,7 +1,12 @@
 package c19
 
 import (
+	"context"
+	"os"
+	"os/exec"
+	"strings"
 	"testing"
+	"time"
 
 	"github.com/lindb/lindb/verifharness/sim/ev"
 )
@@ -90,6 +95,111 @@ func TestRegression_SyncPanicUnderAsyncParentNeverCompletes(t *testing.T) {
 		return
 	}
 	runAndCheck(t, "TestRegression", spec)
+}
+
+// Third finding: Stage.Complete() panics. completeStage calls it while it holds the state
+// machine's mutex and nothing releases the mutex when it panics.
+//
+// Async stage (here the root; production: shardScanStage / groupingStage.Complete collect the
+// group-by tag values): the panic reaches the pool's recover, which calls the stage's error
+// handler -> completeStage -> Lock() of the mutex its own goroutine still holds: the worker is
+// stuck for ever, pending never reaches zero, the completion callback never fires.
+func TestRegression_CompletePanicsOfAsyncStageNeverCompletes(t *testing.T) {
+	spec := tree(
+		nodeSpec{Parent: -1, Async: true, Out: outOK, Fault: faultComplete},
+	)
+	if ev.Known(sigCompletePanics) {
+		// listed as an unrepaired finding: report it when it still reproduces, do not fail
+		res, _ := runCase(spec) // (the stuck worker keeps the pool from draining)
+		if res == nil {
+			t.Fatalf("harness: no result")
+		}
+		for _, v := range checkOracle(spec, res) {
+			if v.Sig == "callback-never" {
+				ev.KnownFinding("C19", sigCompletePanics+": a panic inside Stage.Complete() leaves the state machine's "+
+					"mutex locked; the completion callback never fires and every other stage blocks in completeStage")
+				return
+			}
+			t.Fatalf("C19 violated: [%s] %s", v.Sig, v.Text)
+		}
+		return
+	}
+	runAndCheck(t, "TestRegression", spec)
+}
+
+// Same finding, inline stage on the caller's goroutine: executeStage's recover completes the
+// pipeline (once, with the error), but the mutex stays locked: the sibling that is still
+// running on the pool blocks in completeStage for ever (its worker is never given back).
+// Also when the stage failed: Complete() is then called from the error handler.
+func TestRegression_CompletePanicsOfInlineStageWedgesRunningSibling(t *testing.T) {
+	if ev.Known(sigCompletePanics) {
+		t.Skip("known finding " + sigCompletePanics + " (reported by TestRegression_CompletePanicsOfAsyncStageNeverCompletes)")
+	}
+	for _, out := range []outKind{outOK, outFail} {
+		runAndCheck(t, "TestRegression", tree(
+			nodeSpec{Parent: -1, Out: outOK},
+			nodeSpec{Parent: 0, Async: true, Out: outOK},
+			nodeSpec{Parent: 0, Out: out, Fault: faultComplete, PanicKind: 2},
+		))
+	}
+}
+
+// Same finding, worst consequence: the operator of an async stage panics, the pool's recover
+// calls the stage's error handler -> completeStage -> Complete(), which panics as well: this
+// second panic is raised inside the deferred function of the worker pool, outside every
+// recover: the whole process (storage node / broker) is killed. Also for a stage that runs
+// inline on the worker of an async parent. The shape runs in a child process (the test binary
+// itself) because on a tree with the defect it does not return.
+func TestRegression_CompletePanicsInsidePoolPanicHandler(t *testing.T) {
+	if ev.Known(sigCompletePanics) {
+		t.Skip("known finding " + sigCompletePanics + " (reported by TestRegression_CompletePanicsOfAsyncStageNeverCompletes)")
+	}
+	ctx, cancel := context.WithTimeout(context.Background(), 2*time.Minute)
+	defer cancel()
+	cmd := exec.CommandContext(ctx, os.Args[0], "-test.run=^TestRegressionHelper_CompletePanicsInsidePoolPanicHandler$", "-test.count=1")
+	for _, e := range os.Environ() {
+		if !strings.HasPrefix(e, "VERIF_EV_OUT=") { // the child must not overwrite the evidence of this process
+			cmd.Env = append(cmd.Env, e)
+		}
+	}
+	cmd.Env = append(cmd.Env, "C19_HELPER=1")
+	out, err := cmd.CombinedOutput()
+	if err == nil {
+		return
+	}
+	text := string(out)
+	if len(text) > 3000 {
+		text = text[:3000] + "\n..."
+	}
+	if strings.Contains(text, "C19 violated") {
+		t.Fatalf("%s", text)
+	}
+	t.Fatalf("C19 violated: [process-killed] a stage's operator panics on the pool and its Complete() panics inside the pool's "+
+		"panic handler: the process running the pipeline died (%v) instead of completing the pipeline once with an error\n%s", err, text)
+}
+
+func TestRegressionHelper_CompletePanicsInsidePoolPanicHandler(t *testing.T) {
+	if os.Getenv("C19_HELPER") != "1" {
+		t.Skip("child process of TestRegression_CompletePanicsInsidePoolPanicHandler")
+	}
+	completeFaultUnguarded = true
+	// the stage's own operator panics
+	runAndCheck(t, "TestRegression", tree(
+		nodeSpec{Parent: -1, Out: outOK},
+		nodeSpec{Parent: 0, Async: true, Out: outPanic, Fault: faultComplete, PanicKind: 1},
+		nodeSpec{Parent: 0, Async: true, Out: outOK},
+	))
+	// an inline child panics on the stage's worker
+	runAndCheck(t, "TestRegression", tree(
+		nodeSpec{Parent: -1, Async: true, Out: outOK, Fault: faultComplete},
+		nodeSpec{Parent: 0, Out: outPanic, PanicKind: 2},
+	))
+	// planning of an async child panics on the stage's worker
+	runAndCheck(t, "TestRegression", tree(
+		nodeSpec{Parent: -1, Out: outOK},
+		nodeSpec{Parent: 0, Async: true, Out: outOK, Fault: faultComplete, PanicKind: 3},
+		nodeSpec{Parent: 1, Async: true, Fault: faultPlan},
+	))
 }
 
 // The orderings that already work on the unchanged tree (kept so that a fix cannot trade one
